@@ -98,16 +98,15 @@ def stub_cos(a):
     if isinstance(a, Deg):
         v = a.a
         if isinstance(v, SymReal):
-            if v.c is not None:
-                q = v.c % 360
-                if q in _EXACT_COS:
-                    return SymReal(_EXACT_COS[q])
-                return SymReal(_cosdeg(v.e))
-            return SymReal(_cosdeg(v.e))
+            if v.c is None:
+                raise HarnessError('cosine of a symbolic angle in degrees is not modelled')
+            v = v.c
         q = Fraction(v) % 360
         if q in _EXACT_COS:
             return SymReal(_EXACT_COS[q])
-        return SymReal(_cosdeg(symx.rv(Fraction(v))))
+        # any other angle: the float the converter computes, read as the simple rational it approximates
+        # (reals for floats, as everywhere else)
+        return SymReal(symx.simplest_fraction(math.cos(math.radians(builtins.float(q)))))
     return sym_cos(a)
 
 
